@@ -140,9 +140,12 @@ ClassLike(x) ==
     [] T(x) = "cat" -> (T(x[2]) = "empty" /\ ClassLike(x[3])) \/ (T(x[3]) = "empty" /\ ClassLike(x[2]))
     [] OTHER -> FALSE
 DotLang(x) == ClassLike(x) /\ \A w \in Words : Matches(x, w) <=> Len(w) = 1
+(* a run of dots: for some length n >= 1 EVERY word of n characters matches (.  ..  .?  .{1,2}  (.)  .|ab): *)
+(* repeated without bound it consumes whatever follows, exactly like .+                                     *)
+DotRun(x) == DotLang(x) \/ \E n \in 1..2 : \A w \in Words : Len(w) = n => Matches(x, w)
 RECURSIVE GreedyAll(_)
 GreedyAll(x) ==
-  CASE T(x) = "rep"  -> (x[4] = Inf /\ DotLang(x[2])) \/ GreedyAll(x[2])
+  CASE T(x) = "rep"  -> (x[4] = Inf /\ DotRun(x[2])) \/ GreedyAll(x[2])
     [] T(x) \in {"lazy", "cap"} -> GreedyAll(x[2])
     [] T(x) \in {"cat", "alt"} -> GreedyAll(x[2]) \/ GreedyAll(x[3])
     [] OTHER -> FALSE
